@@ -124,6 +124,18 @@ Theorem C02_members_are_a_set : forall (hash64 : Z -> N) s, hinv hash64 s ->
 Proof. exact hinv_set_laws. Qed.
 Print Assumptions C02_members_are_a_set.
 
+(* insert makes that value, and only that value, a member: after an accepted insert [contains] answers true for it and
+   for every other value what it answered before, and the size grew by one; a refused insert returns the same state *)
+Theorem C02_insert_then_contains : forall (hash64 : Z -> N) s v, hinv hash64 s ->
+  exists s' b, hinsert hash64 s v = Ok (s', b) /\ hinv hash64 s' /\
+    b = negb (zs_mem (habs s) v || (hcap s <=? hsize s)) /\
+    (b = true -> hcontains hash64 s' v = Ok true /\
+                 (forall w, w <> v -> hcontains hash64 s' w = hcontains hash64 s w) /\
+                 hsize s' = hsize s + 1) /\
+    (b = false -> s' = s).
+Proof. exact hinsert_then_contains. Qed.
+Print Assumptions C02_insert_then_contains.
+
 Example C02_zset_laws_example :
   let m := [3; 5; 9]%Z in
   ssorted m /\ zs_insert m 4%Z = [3; 4; 5; 9]%Z /\ zs_insert m 5%Z = m /\
